@@ -71,6 +71,11 @@ def cases(tier, seed):
             ys_w = [[(i * 5 + 1) % 3 if (i * 5 + 1) % 3 < 2 else 3 for i in range(16)], [(0, 1, 3)[(i // 4 + i) % 3] for i in range(16)]]
             for bn in ("bins", "kb2", "tree3"):
                 yield {"kind": "partition", "design": dname, "ys": ys_w[:1] if bn != "bins" else ys_w, "est": est, "binners": [bn]}
+    # decision_function with 2..5 classes and local models whose scores have one column per class, one column (binary), or one
+    # column per PAIR of classes (SVC ovo)
+    for ncls in (2, 3, 4, 5):
+        for est in ("logreg", "svc-ovr", "svc-ovo", "recorder"):
+            yield {"kind": "decfun", "ncls": ncls, "est": est}
     b = bounds(tier)["schedule_bound"]
     for op in ("fit", "predict", "predict_proba"):
         for W in (2, 3):
@@ -356,6 +361,54 @@ def _partition(case, bad):
     return cnt, ntriv
 
 
+def _decfun(case, bad):
+    import warnings
+    import numpy
+    from sklearn.linear_model import LogisticRegression
+    from sklearn.svm import SVC
+    from sklearn.tree import DecisionTreeClassifier
+    from mlinsights.mlmodel import PiecewiseClassifier
+    warnings.simplefilter("ignore")
+    _RecReg, RecClf, _ = _rec_classes()
+    ncls = case["ncls"]
+    n = 12 * ncls
+    X = numpy.array([[float(i), float((i * 7) % 5)] for i in range(n)])
+    y = numpy.array([3 + 4 * ((i * 5 + i // 7) % ncls) for i in range(n)])
+    P = numpy.vstack([X[::3] + 0.25, [[-3.0, 0.0]], [[n + 5.0, 2.0]]])
+    cnt = 0
+    for binner in (DecisionTreeClassifier(max_leaf_nodes=3, min_samples_leaf=3 * ncls, random_state=0), "bins"):
+        est = {"logreg": LogisticRegression(), "svc-ovr": SVC(decision_function_shape="ovr"), "svc-ovo": SVC(decision_function_shape="ovo"),
+               "recorder": RecClf()}[case["est"]]
+        cond = "classifier,%s,decision_function,%s classes" % ("tree binner" if not isinstance(binner, str) else "discretizer binner", "2" if ncls == 2 else ">=3")
+        desc = "classes=%d local model=%s binner=%s" % (ncls, case["est"], binner)
+        try:
+            numpy.random.seed(0)
+            model = PiecewiseClassifier(binner=binner, estimator=est, random_state=0).fit(X, y)
+        except Exception as ex:
+            bad("fit raises %s" % type(ex).__name__, cond, "%s %s" % (str(ex)[:200], desc))
+            continue
+        codes, pcodes = _codes(model, X), _codes(model, P)
+        tb = numpy.asarray(model.transform_bins(X))
+        grp = {}
+        for c_, t_ in zip(codes, tb):
+            grp[c_] = int(t_)
+        ests = list(model.estimators_)
+        try:
+            out = numpy.asarray(model.decision_function(P))
+        except Exception as ex:
+            bad("decision_function raises %s" % type(ex).__name__, cond, "%s %s" % (str(ex)[:200], desc))
+            continue
+        cnt += 1
+        for i, c_ in enumerate(pcodes):
+            e_ = ests[grp[c_]] if c_ in grp else model.mean_estimator_
+            exp = numpy.asarray(e_.decision_function(P[i:i + 1]))[0]
+            if numpy.asarray(out[i]).shape != numpy.asarray(exp).shape or not numpy.allclose(numpy.asarray(out[i], dtype=float), numpy.asarray(exp, dtype=float), rtol=1e-9, atol=1e-12):
+                bad("a row's decision_function is not its bucket model's (or the fallback's) output", cond,
+                    "row %r got %r expected %r %s" % (P[i].tolist(), numpy.asarray(out[i]).tolist(), numpy.asarray(exp).tolist(), desc))
+                break
+    return cnt
+
+
 # ------------------------------------------------------------------ schedules
 def _sched_config(cfg):
     import numpy
@@ -483,6 +536,9 @@ def run_case(case):
     if case["kind"] == "partition":
         cnt, ntriv = _partition(case, bad)
         return {"viol": viol, "nontrivial": ntriv > 0, "states": cnt, "transitions": cnt * 3, "outcome": (case["design"], case["est"])}
+    if case["kind"] == "decfun":
+        cnt = _decfun(case, bad)
+        return {"viol": viol, "nontrivial": True, "states": cnt, "transitions": cnt, "outcome": ("decfun", case["ncls"], case["est"])}
     if case["kind"] == "schedule":
         execs, nout, pts = _schedule(case, bad)
         return {"viol": viol, "nontrivial": True, "states": execs, "transitions": execs * pts, "outcome": (case["cfg"], case["op"], case["W"], nout),
